@@ -34,7 +34,7 @@ def load_known():
     return out
 
 
-def run_shards(prop, tier, seed, nshards, jobs, timeout, tmpdir):
+def run_shards(prop, tier, seed, nshards, jobs, timeout, tmpdir, debug_shards=False):
     pending = list(range(nshards))
     running = {}
     results = {}
@@ -44,10 +44,16 @@ def run_shards(prop, tier, seed, nshards, jobs, timeout, tmpdir):
             i = pending.pop(0)
             out = os.path.join(tmpdir, 'shard%d.json' % i)
             log = open(os.path.join(tmpdir, 'shard%d.log' % i), 'w')
+            shard_env = environ
+            if debug_shards and i % 8 == 5:
+                # environment route: this shard runs the library in its debug mode (CHAMELEON_DEBUG: type-checking output
+                # stream, modules written to a scratch directory and never reused, source and body kept) - every property
+                # holds there as well
+                shard_env = dict(environ, CHAMELEON_DEBUG='true', VERIF_DEBUG_SHARD='1')
             p = subprocess.Popen(
                 [env.PY, '-m', 'vlib.shard', prop, tier, str(seed), str(i),
                  str(nshards), out],
-                cwd=env.VERIF, env=environ, stdout=log, stderr=subprocess.STDOUT)
+                cwd=env.VERIF, env=shard_env, stdout=log, stderr=subprocess.STDOUT)
             running[i] = (p, out, time.time(), log)
         time.sleep(0.05)
         for i, (p, out, t0, log) in list(running.items()):
@@ -103,7 +109,7 @@ def main(argv):
     t0 = time.time()
     tmpdir = tempfile.mkdtemp(prefix='vcheck_%s_' % prop)
     try:
-        results = run_shards(prop, tier, seed, nshards, jobs, timeout, tmpdir)
+        results = run_shards(prop, tier, seed, nshards, jobs, timeout, tmpdir, getattr(mod, 'DEBUG_SHARDS', False))
     finally:
         shutil.rmtree(tmpdir, ignore_errors=True)
 
